@@ -248,7 +248,12 @@ class ArgTypeExpander:
                     assert formal_name is not None
                 else:
                     # Pick an arbitrary item if no specified keyword is expected.
-                    formal_name = (set(actual_type.items.keys()) - self.kwargs_used).pop()
+                    unused_items = set(actual_type.items.keys()) - self.kwargs_used
+                    if not unused_items:
+                        # Every item has already been matched, e.g. the same TypedDict is
+                        # unpacked twice (f(**td, **td)) or it has no items at all.
+                        return AnyType(TypeOfAny.from_error)
+                    formal_name = unused_items.pop()
                 self.kwargs_used.add(formal_name)
                 return actual_type.items[formal_name]
             elif isinstance(actual_type, Instance) and is_subtype(
